@@ -148,11 +148,22 @@ impl Polytope {
 
         // add linear constraints
         for (row, bias) in zip(self.mat.rows(), &self.bias) {
-            let constraint: Vec<(Variable, f64)> =
-                zip(&vars, row).map(|(var, coeff)| (*var, *coeff)).collect();
+            // minilp works with absolute tolerances: rows of very different magnitude make it
+            // report feasible systems as infeasible. Scale each row by a power of two (exact in
+            // floating point, the half-space stays the same) such that its largest coefficient
+            // lies in [1, 2).
+            let max_coeff = row.iter().fold(0.0_f64, |acc, x| acc.max(x.abs()));
+            let scale = if max_coeff.is_normal() {
+                2.0_f64.powi(-(max_coeff.log2().floor() as i32))
+            } else {
+                1.0
+            };
+            let constraint: Vec<(Variable, f64)> = zip(&vars, row)
+                .map(|(var, coeff)| (*var, *coeff * scale))
+                .collect();
 
             // set bias as upper bound (inclusive) of the linear constraint
-            pb.add_constraint(constraint.as_slice(), ComparisonOp::Le, *bias);
+            pb.add_constraint(constraint.as_slice(), ComparisonOp::Le, *bias * scale);
         }
 
         // print!("{:?}", solved.status());
